@@ -69,6 +69,8 @@ func runOracles(res *Result, prop string, c *Case) {
 		oracleC11(res, c)
 	case "C07":
 		oracleC07(res, c)
+	case "C04":
+		oracleC04(res, c)
 	}
 }
 
